@@ -14,6 +14,7 @@ const maxCount = 1 << 14
 
 type Map struct {
 	mu        sync.Mutex
+	started   bool
 	next      uint16
 	nextPid   uint16
 	delta     uint16
@@ -35,8 +36,9 @@ func (m *Map) Map(seqno uint16, pid uint16) (bool, uint16, uint16) {
 	defer m.mu.Unlock()
 
 	if m.delta == 0 && m.entries == nil {
-		if compare(m.next, seqno) <= 0 ||
+		if !m.started || compare(m.next, seqno) <= 0 ||
 			uint16(m.next-seqno) > 8*1024 {
+			m.started = true
 			m.next = seqno + 1
 			m.nextPid = pid
 		}
@@ -192,7 +194,7 @@ func (m *Map) Drop(seqno uint16, pid uint16) bool {
 	m.mu.Lock()
 	defer m.mu.Unlock()
 
-	if seqno != m.next {
+	if !m.started || seqno != m.next {
 		return false
 	}
 
